@@ -33,20 +33,41 @@ fn db_config() -> DBConfig {
 }
 
 pub async fn open_nexus(store: &SimStore) -> Result<CognitiveNexus, String> {
-    let db = AndaDB::connect(Arc::new(store.clone()), db_config()).await.map_err(|e| format!("AndaDB::connect: {e:?}"))?;
+    open_nexus_with(store, false).await
+}
+
+/// `cache_off`: the object cache of every collection is disabled, so every
+/// document read is a backend call - and therefore a scheduling point. With the
+/// default cache a whole query runs between two scheduling points and readers
+/// can never be interleaved with a commit.
+pub async fn open_nexus_with(store: &SimStore, cache_off: bool) -> Result<CognitiveNexus, String> {
+    let mut cfg = db_config();
+    if cache_off {
+        cfg.storage.cache_max_capacity = 0;
+        cfg.storage.cache_max_bytes = Some(0);
+    }
+    let db = AndaDB::connect(Arc::new(store.clone()), cfg).await.map_err(|e| format!("AndaDB::connect: {e:?}"))?;
     CognitiveNexus::connect(Arc::new(db)).await.map_err(|e| format!("CognitiveNexus::connect: {e:?}"))
 }
 
 static BASE: OnceLock<InMemory> = OnceLock::new();
+static BASE_NOCACHE: OnceLock<InMemory> = OnceLock::new();
 
 /// The base image: a database with the cognitive-memory profile installed and
 /// activated, built once per process on a dedicated thread with fixed entropy
 /// and clock so that it is identical in every process.
 pub fn base_image() -> InMemory {
-    BASE.get_or_init(|| {
+    base_image_with(false)
+}
+
+/// `cache_off`: the image whose collections were created with the object cache
+/// disabled (the cache size is persisted at creation), see `open_nexus_with`.
+pub fn base_image_with(cache_off: bool) -> InMemory {
+    let slot = if cache_off { &BASE_NOCACHE } else { &BASE };
+    slot.get_or_init(|| {
         std::thread::Builder::new()
             .stack_size(32 << 20)
-            .spawn(|| {
+            .spawn(move || {
                 simcore::seams::install_entropy(0xBA5E);
                 let mut cfg = SimConfig::simple(0xBA5E);
                 cfg.park = false;
@@ -55,7 +76,7 @@ pub fn base_image() -> InMemory {
                 let sim = Sim::new(&cfg);
                 sim.install_clock_here();
                 let store = SimStore::new(sim, InMemory::new());
-                let nexus = block(open_nexus(&store)).expect("base nexus");
+                let nexus = block(open_nexus_with(&store, cache_off)).expect("base nexus");
                 let pkg = SchemaPackage::parse(anda_cognitive_nexus::profiles::COGNITIVE_MEMORY).expect("profile parses");
                 block(nexus.install_package(&pkg, "andasim")).expect("install profile");
                 let mut lock = SchemaLock::default();
